@@ -23,6 +23,10 @@ A schedule is a list of labels; `trun` / `prun` execute it (`none` = some label 
 namespace Cppcheck.Exec
 open Cppcheck.Wire Cppcheck.Serialize
 
+/-- SWITCH used by the driver for predictions about the real binary: set to `true` once
+    /verif/proposed/C15-suppressed-dedup-jobs.diff is applied to /repo (the theorems cover both values). -/
+def dedupFixApplied : Bool := false
+
 /-- `SuppressionList::ErrorMessage::fromErrorMessage(msg, {})`: everything a suppression can look at -/
 structure SView where
   hash : Nat
@@ -51,6 +55,9 @@ structure Cfg where
   critical : Str → Bool
   emitDuplicates : Bool := false
   safety : Bool := false
+  /-- `false` = lib/cppcheck.cpp as it is (suppressed findings have a duplicate filter of their own, chosen by the
+      logger's own notion of "suppressed"); `true` = after /verif/proposed/C15-suppressed-dedup-jobs.diff -/
+  dedupFix : Bool := false
   /-- `settings.exitCode` (--error-exitcode) -/
   exitCode : Nat := 1
   /-- `Path::simplifyPath` -/
@@ -71,10 +78,20 @@ structure Raw where
   remark : Str := []
   deriving DecidableEq, Repr, Inhabited
 
+/-- the copy `temp.severity = Severity::internal` the safety branch forwards -/
+def asInternal (m : Msg) : Msg := { m with severity := .internal }
+
 def Raw.fwd (r : Raw) : Msg := if r.remark.isEmpty then r.msg else { r.msg with remark := r.remark }
 
-/-- `CppCheckLogger::reportErr`: (messages forwarded to the next logger, new per-check key set, exit code set) -/
-def logOne (cfg : Cfg) (useGlobal : Bool) (seen : List Str) (r : Raw) : List Msg × List Str × Bool :=
+/-- the two per-check duplicate filters of `CppCheckLogger`: `mErrorList`, `mSuppressedErrorList` -/
+structure Seen where
+  shown : List Str := []
+  suppressed : List Str := []
+  deriving DecidableEq, Repr, Inhabited
+
+/-- `CppCheckLogger::reportErr`: (messages forwarded to the next logger, new per-check key sets, exit code set).
+    `cfg.dedupFix` selects the code after /verif/proposed/C15-suppressed-dedup-jobs.diff (`suppressedLater`). -/
+def logOne (cfg : Cfg) (useGlobal : Bool) (seen : Seen) (r : Raw) : List Msg × Seen × Bool :=
   if r.msg.severity = .internal then ([r.msg], seen, false)
   else if !r.reportable then ([], seen, false)
   else
@@ -83,25 +100,55 @@ def logOne (cfg : Cfg) (useGlobal : Bool) (seen : List Str) (r : Raw) : List Msg
     let crit := suppressed && cfg.safety && cfg.critical r.msg.id
     let fwdCrit : List Msg :=
       if crit then
-        (if r.locSupX || (useGlobal && cfg.supGX v) then [{ r.msg with severity := .internal }] else [r.msg])
+        (if r.locSupX || (useGlobal && cfg.supGX v) then [asInternal r.msg] else [r.msg])
       else []
     let k := cfg.key r.msg
     if k.isEmpty then (fwdCrit, seen, crit)
-    else if !cfg.emitDuplicates && k ∈ seen then (fwdCrit, seen, crit)
     else
-      let seen' := if cfg.emitDuplicates then seen else k :: seen
-      if suppressed then (fwdCrit, seen', crit)
+      let bucketS := suppressed || (cfg.dedupFix && !useGlobal && cfg.supG v)
+      if !cfg.emitDuplicates && k ∈ (if bucketS then seen.suppressed else seen.shown) then (fwdCrit, seen, crit)
       else
-        let ex := !r.noFail && !(r.locSup || cfg.supG v)
-        (fwdCrit ++ [r.fwd], seen', crit || ex)
+        let seen' : Seen :=
+          if cfg.emitDuplicates then seen
+          else if bucketS then { seen with suppressed := k :: seen.suppressed } else { seen with shown := k :: seen.shown }
+        if suppressed then (fwdCrit, seen', crit)
+        else
+          let ex := !r.noFail && !(r.locSup || cfg.supG v)
+          (fwdCrit ++ [r.fwd], seen', crit || ex)
 
 /-- one `CppCheck::check(file)`: forwarded messages in order, `mLogger->exitcode()` -/
-def logRun (cfg : Cfg) (useGlobal : Bool) : List Str → List Raw → List Msg × Bool
+def logRun (cfg : Cfg) (useGlobal : Bool) : Seen → List Raw → List Msg × Bool
   | _, [] => ([], false)
   | seen, r :: rs =>
     let (fw, seen', e) := logOne cfg useGlobal seen r
     let (o, e') := logRun cfg useGlobal seen' rs
     (fw ++ o, e || e')
+
+/-! hypotheses of the executor theorems on one file's logger input (decidable; each excluded region is a finding
+    or is argued in docs/C15.md) -/
+
+/-- reported by the per-file logger of every executor: not internal, reportable, matched by no suppression -/
+def Raw.plain (cfg : Cfg) (r : Raw) : Bool :=
+  r.msg.severity != .internal && r.reportable && !r.locSup && !cfg.supG (sview cfg.simp r.msg)
+
+/-- matched by a non-local suppression only: suppressed inside the logger with -j1, by `hasToLog` with -jN -/
+def Raw.globalOnly (cfg : Cfg) (r : Raw) : Bool :=
+  r.msg.severity != .internal && r.reportable && !r.locSup && cfg.supG (sview cfg.simp r.msg)
+
+/-- the output template renders no message of the run to the empty string -/
+def keyOK (cfg : Cfg) (rs : List Raw) : Bool :=
+  rs.all fun r => !(cfg.key r.msg).isEmpty && !(cfg.key r.fwd).isEmpty
+
+/-- without --safety, or no critical error id is matched by a non-local suppression (excluded: finding F11c) -/
+def safetyOK (cfg : Cfg) (rs : List Raw) : Bool :=
+  !cfg.safety || rs.all fun r =>
+    !cfg.critical r.msg.id || (!cfg.supG (sview cfg.simp r.msg) && !cfg.supGX (sview cfg.simp r.msg))
+
+/-- after the proposed fix, or no finding that only a non-local suppression matches renders to the text of a
+    reported finding of the same file (excluded: finding F11d) -/
+def dedupOK (cfg : Cfg) (rs : List Raw) : Bool :=
+  cfg.dedupFix || rs.all fun r => rs.all fun r' =>
+    !(r.globalOnly cfg && r'.plain cfg && cfg.key r.msg == cfg.key r'.msg)
 
 /-- `Executor::hasToLog`: verdict and new `mErrorList` -/
 def gate (cfg : Cfg) (el : List Str) (m : Msg) : Bool × List Str :=
@@ -152,12 +199,16 @@ structure Outcome where
   deriving DecidableEq, Repr, Inhabited
 
 def singleFile (cfg : Cfg) (raws : F → List Raw) (o : Outcome) (f : F) : Outcome :=
-  let (out, e) := logRun cfg true [] (raws f)
+  let (out, e) := logRun cfg true {} (raws f)
   { sink := out.foldl (sinkStep cfg) o.sink, result := o.result + e.toNat }
 
 /-- `SingleExecutor::check` over `mFiles` -/
 def runSingle (cfg : Cfg) (raws : F → List Raw) (files : List F) : Outcome :=
   files.foldl (singleFile cfg raws) {}
+
+/-- every message some worker's logger forwards during the run (-jN view: global suppressions not yet applied) -/
+def forwarded (cfg : Cfg) (raws : F → List Raw) (files : List F) : List Msg :=
+  files.flatMap fun f => (logRun cfg false {} (raws f)).1
 
 /-! ## thread executor -/
 
@@ -196,7 +247,7 @@ def tstep (cfg : Cfg) (raws : F → List Raw) (s : TState F) : TLabel → Option
       else match s.files with
         | [] => some { s with workers := s.workers.set i { w with finished := true } }
         | f :: fs =>
-          let (out, e) := logRun cfg false [] (raws f)
+          let (out, e) := logRun cfg false {} (raws f)
           some { s with files := fs, workers := s.workers.set i { w with pending := out }, result := s.result + e.toNat }
   | .gate i =>
     match s.workers[i]? with
@@ -244,7 +295,7 @@ def Ev.frame : Ev → Str
 
 /-- the forked child for file `f`: findings as they are forwarded, then `writeSuppr`, then `writeEnd` -/
 def childEvents (cfg : Cfg) (raws : F → List Raw) (sups : F → List (Bool × Suppr)) (f : F) : List Ev :=
-  let (out, e) := logRun cfg false [] (raws f)
+  let (out, e) := logRun cfg false {} (raws f)
   out.map Ev.err ++ (sups f).map (fun p => Ev.suppr p.1 p.2) ++ [Ev.done e.toNat]
 
 /-- `PipeWriter::writeSuppr`: every inline suppression, and the other ones once they were checked -/
@@ -253,11 +304,7 @@ def writeSuppr (l : List Suppr) : List (Bool × Suppr) :=
 
 /-- `std::stoi`: `none` = invalid_argument / out_of_range (not caught by handleRead) -/
 def stoi (s : Str) : Option Int :=
-  let s := dropSpaces s
-  let (neg, s) := match s with
-    | '-' :: r => (true, r)
-    | '+' :: r => (false, r)
-    | _ => (false, s)
+  let (neg, s) := splitSign (dropSpaces s)
   let (ds, _) := takeDigits s
   if ds.isEmpty then none
   else
